@@ -162,12 +162,16 @@ func newHTTPResponseWriter(conn *net.Conn) http.ResponseWriter {
 }
 
 func (w *httpResponseWriter) Write(data []byte) (int, error) {
+	// The length is declared: without it the body ends where the connection
+	// ends, and a response cut short (the process exits while it is being
+	// written) cannot be told from a complete one.
 	response := http.Response{
-		StatusCode: w.statusCode,
-		ProtoMajor: 1,
-		ProtoMinor: 0,
-		Body:       io.NopCloser(strings.NewReader(string(data))),
-		Header:     w.header,
+		StatusCode:    w.statusCode,
+		ProtoMajor:    1,
+		ProtoMinor:    0,
+		Body:          io.NopCloser(strings.NewReader(string(data))),
+		ContentLength: int64(len(data)),
+		Header:        w.header,
 	}
 	_ = response.Write(*w.conn)
 	return 0, nil
